@@ -198,33 +198,7 @@ def run(ctx):
 
     # ------------------------------------------------------------------ R3
     ctx.rule("R3", "conversions are explicit: new object, allow_changes guard, warning", "a silent or unannounced conversion")
-    for f in (pa, ps_):
-        cfg = cfg_of(f)
-        conv = [n for n in f.own_nodes() if isinstance(n, ast.Return) and isinstance(n.value, ast.Call)]
-        for r in conv:
-            rr = prog.resolve_expr(f, f.module, r.value.func)
-            if not (rr and rr[0] == "external" and rr[1] in ("attrs.evolve", "attr.evolve")):
-                ctx.violate("R3", f"{f.name}: conversion result is not built with attrs.evolve", f, r)
-                continue
-            guard = None
-            warn_st = None
-            for st in walk_stmts(f.body):
-                if isinstance(st, ast.If) and isinstance(st.test, ast.UnaryOp) and isinstance(st.test.op, ast.Not) and isinstance(st.test.operand, ast.Name) and st.test.operand.id == "allow_changes":
-                    if st.body and isinstance(st.body[-1], ast.Raise) and raises_class(st.body[-1]) == "PrepareDumpError":
-                        guard = st
-                if isinstance(st, ast.Expr) and isinstance(st.value, ast.Call):
-                    c = st.value
-                    rw = prog.resolve_expr(f, f.module, c.func)
-                    if rw and rw[0] == "external" and rw[1] == "warnings.warn" and c.args and isinstance(c.args[0], ast.Call) and getattr(c.args[0].func, "id", "") == "PrepareDumpWarning":
-                        warn_st = st
-            if guard is not None and cfg.dominates(guard, r):
-                ctx.ok("R3", f"{f.name}: conversion dominated by `if not allow_changes: raise PrepareDumpError`", f"{f.module.relpath}:{guard.lineno}")
-            else:
-                ctx.violate("R3", f"{f.name}: conversion is not dominated by the allow_changes guard", f, r)
-            if warn_st is not None and cfg.dominates(warn_st, r):
-                ctx.ok("R3", f"{f.name}: conversion dominated by warn(PrepareDumpWarning)", f"{f.module.relpath}:{warn_st.lineno}")
-            else:
-                ctx.violate("R3", f"{f.name}: conversion is not announced by a PrepareDumpWarning on every path", f, r)
+    _check_conversions_evaluated(ctx, pa, ps_)
     from .apiplumb import check_prepare_arguments, check_prepared_object_used
 
     ctx.rule("R5", "the API writes and returns the object prepare_dump returned", "the conversion is announced but the unconverted object is written (or the caller gets back an object that was not the one written)")
@@ -236,6 +210,75 @@ def run(ctx):
     # ... and "writes the object as is": the evaluated guard matrix (same object / error / announced copy per format
     # and object class) is the value-level form of R2 / R3
     ctx.borrow("c08", {"R2": "R7", "R5": "R8"})
+
+def _check_conversions_evaluated(ctx, pa, ps_):
+    """R3 by evaluation: each `prepare_*` routine is interpreted on a model object that needs the conversion.  Without
+    allow_changes the outcome is PrepareDumpError and nothing is announced; with it exactly one PrepareDumpWarning that
+    names the file is issued, the result is another object than the one given, and the given object still holds the
+    orbitals / basis it held."""
+    import numpy as np
+
+    from ..accessors import AccessorEval, Raised, Rec
+    from ..symarr import NotSymbolic
+
+    prog = ctx.prog
+    iocls = prog.cls("iodata.iodata.IOData")
+    mo_cls = prog.cls("iodata.orbitals.MolecularOrbitals")
+    shcls = prog.cls("iodata.basis.Shell")
+    mbcls = prog.cls("iodata.basis.MolecularBasis")
+
+    def obj_aminusb():
+        f0 = {n_: None for n_ in mo_cls.fields}
+        f0.update(kind="restricted", norba=2, norbb=2, occs=np.array([2.0, 1.0]), coeffs=np.zeros((3, 2)), energies=np.array([-1.0, 0.5]), occs_aminusb=np.array([0.0, 1.0]))
+        d0 = {n_: None for n_ in iocls.fields}
+        d0.update(mo=Rec(mo_cls, **f0))
+        return Rec(iocls, **d0), "mo"
+
+    def obj_generalized():
+        sh = Rec(shcls, icenter=0, angmoms=np.array([0, 2]), kinds=["c", "p"], exponents=np.array([1.0, 0.5]), coeffs=np.array([[0.5, 0.25], [0.75, 1.0]]))
+        d0 = {n_: None for n_ in iocls.fields}
+        d0.update(obasis=Rec(mbcls, shells=[sh], conventions={}, primitive_normalization="L2"))
+        return Rec(iocls, **d0), "obasis"
+
+    for f, mk, extra in ((pa, obj_aminusb, []), (ps_, obj_generalized, [False])):
+        bad = None
+        for allow in (False, True):
+            data, held = mk()
+            before = data.fields[held]
+            warned = []
+            ev = AccessorEval(prog, iocls, limit=8000)
+            ev.module = f.module
+            ev.ext_stubs = {"warnings.warn": lambda a_, k_: warned.append(a_[0] if a_ else None)}
+            args = [data] + extra + [allow, "FILE", "FMT"]
+            try:
+                res = ev.run_free(f, args, {})
+                outcome = "returns"
+            except Raised as exc:
+                res, outcome = None, exc.args[0]
+            except NotSymbolic as exc:
+                raise AnalysisError(f"{f.qualname} is outside the evaluation whitelist: {exc}") from exc
+            if not allow:
+                if outcome != "PrepareDumpError":
+                    bad = bad or f"an object that needs the conversion, allow_changes=False: {outcome} instead of PrepareDumpError"
+                elif warned:
+                    bad = bad or "a conversion is announced although it was refused"
+            else:
+                w_ok = len(warned) == 1 and isinstance(warned[0], Rec) and warned[0].cls is not None and warned[0].cls.name == "PrepareDumpWarning" and "FILE" in [a_ for a_ in warned[0].fields.get("args", ())]
+                if outcome != "returns":
+                    bad = bad or f"allow_changes=True: {outcome}"
+                elif not w_ok:
+                    bad = bad or f"conversion is not announced by a PrepareDumpWarning on every path ({len(warned)} warning(s) issued" + ("" if not warned else f", the first is {getattr(getattr(warned[0], 'cls', None), 'name', type(warned[0]).__name__)} with arguments {getattr(warned[0], 'fields', {}).get('args')!r}") + ")"
+                elif res is data or not isinstance(res, Rec):
+                    bad = bad or "the converted object is the caller's own object (converted in place)"
+                elif data.fields[held] is not before:
+                    bad = bad or f"the caller's object has another `{held}` after the conversion"
+                elif res.fields.get(held) is before:
+                    bad = bad or f"the object returned still holds the unconverted `{held}`"
+        if bad:
+            ctx.violate("R3", f"{f.name}: {bad}", f, f.node, construct=f"{f.name}: {bad}"[:170])
+        else:
+            ctx.ok("R3", f"{f.name} evaluated on a model object that needs the conversion: PrepareDumpError without allow_changes; with it one PrepareDumpWarning naming the file, a new object, the caller's object untouched", f"{f.module.relpath}:{f.lineno}")
+
 
 def deref_attr(func, node):
     return node
